@@ -25,6 +25,8 @@ func init() {
 			"Sequential cases: 10-40 blocking reports (valid / Verify-invalid / ill-typed in seeded alternation), after each one the view, serial, report result and exactly-one OnWatchedError(err, old==current pointer, new==rejected stack or nil) are compared with the reference model. " +
 			"Concurrent cases: 2-4 reporter goroutines (blocking and non-blocking) and 2 spinning readers plus Events/OnNewConfig/registered-callback/mon.stored observers, seeded yields at the dials hook points; every observed config is checked against the pure predicate while verification is active, " +
 			"Verify must never see a receiver that is already visible, and the client-boundary history (report/read with logical call/return stamps) is checked for linearizability with porcupine against the sequential model. " +
+			"Sequential cases also contain blocking reports whose context ends exactly when the monitor answers them (the reporter lets the monitor finish before its context is cancelled, or the context is cancelled at the schedule point just before the reply): a rejected update is never answered with nil, view and serial follow the model. " +
+			"Every 25th case runs stacks of non-watching sources only (no monitor): Config must fail on an invalid initial stack unless Skip/Delay, and with Delay EnableVerification must fail exactly when the installed config's Verify (content, or a refusing impure Verify) fails. " +
 			"All four Skip x Delay combinations; initial-invalid stacks must make Config fail. distinct_nontrivial = distinct (options, op-kind sequence, outcome sequence) signatures of histories containing at least one rejected and one installed update.",
 		Assumptions: []string{
 			"the fake sources always produce values of the type dials asked for (except the deliberately ill-typed *string-for-*int layer)",
@@ -33,8 +35,8 @@ func init() {
 		},
 		MinDistinct: map[string]int{"quick": 1000, "thorough": 50000},
 		MinCounters: map[string]map[string]int64{
-			"quick":    {"configs_validity_checked": 2000, "rejections_checked_exactly": 300, "linearizable_histories": 80, "verify_calls_observed": 2000},
-			"thorough": {"configs_validity_checked": 1000000, "rejections_checked_exactly": 100000, "linearizable_histories": 40000},
+			"quick":    {"configs_validity_checked": 2000, "rejections_checked_exactly": 300, "linearizable_histories": 80, "verify_calls_observed": 2000, "rejections_cancelled_at_the_answer": 150, "no_watcher_enable_on_invalid_stack": 40},
+			"thorough": {"configs_validity_checked": 1000000, "rejections_checked_exactly": 100000, "linearizable_histories": 40000, "rejections_cancelled_at_the_answer": 5000, "no_watcher_enable_on_invalid_stack": 1500},
 		},
 		Plan: func(tier string) fw.Plan {
 			if tier == "thorough" {
@@ -54,6 +56,10 @@ func runC04(w *fw.Worker) {
 	w.Cases(func(i int, r *fw.Rand) {
 		if i%25 == 24 {
 			c04RejectThenShutdown(w, i, r)
+			return
+		}
+		if i%25 == 12 {
+			c04NoWatcher(w, i, r)
 			return
 		}
 		if r.Chance(45) {
@@ -144,6 +150,14 @@ func c04Sequential(w *fw.Worker, i int, r *fw.Rand) {
 	lastBySrc := map[int]*conc.Layer{}
 	var staleTok dials.CfgSerial[conc.Cfg]
 	staleTokOK := false
+	// schedule point used by the cancelled-at-the-answer episodes: the function armed here runs on the monitor goroutine
+	// at the dials hook points
+	var monHook atomic.Pointer[func(name string, args []any)]
+	e.ExtraHook = func(name string, _ context.Context, args []any) {
+		if f := monHook.Load(); f != nil {
+			(*f)(name, args)
+		}
+	}
 	for k := 0; k < n; k++ {
 		// optionally enable verification in delayed scenarios
 		if o.Delay && !enabled && r.Chance(15) {
@@ -227,6 +241,63 @@ func c04Sequential(w *fw.Worker, i int, r *fw.Rand) {
 			}
 			curPtr = e.D.View()
 		}
+		if r.Chance(7) {
+			// the reporter's context ends at the very moment the monitor answers the blocking report (valid, Verify-invalid
+			// or ill-typed value alike). Whatever the reporter then sees first, a rejected update is never answered with nil.
+			cl := e.RandLayer(r, 60, 15)
+			if e.Wrapped != 0 && src == e.Wrapped {
+				cl.IllTyped = false
+			}
+			mode := r.Intn(2)
+			res, cerr, exercised := c04CancelAtAnswer(e, &monHook, src, cl, mode)
+			if !e.FenceMonitor(ctx) {
+				w.Inconclusive(i, "monitor fence failed")
+				return
+			}
+			in := conc.In{Kind: conc.OpReport, Src: src, Layer: cl, Blocking: true}
+			// the reference model accepts a nil answer exactly when the update is installed
+			wouldInstall := len(e.Model.Step(st, in, conc.Out{Res: conc.ResNil})) > 0
+			trace = append(trace, fmt.Sprintf("report src=%d %s with its context cancelled at the answer (mode %d, exercised=%v) -> res=%d err=%v", src, cl, mode, exercised, res, cerr))
+			ns := e.Model.Step(st, in, conc.Out{Res: res})
+			if len(ns) == 0 {
+				key := "blocking-report-result-disagrees-with-model"
+				if res == conc.ResNil {
+					key = "cancelled-blocking-report-returned-nil-for-rejected-update"
+				}
+				w.Violation(i, key, fmt.Sprintf("blocking report of %s, whose context was cancelled as the monitor answered it, returned res=%d (%v); the reference model says the update is %s", cl, res, cerr, map[bool]string{true: "installed", false: "rejected"}[wouldInstall]), trace)
+				return
+			}
+			st = ns[0].(conc.State)
+			{
+				cfg, tok := e.D.ViewVersion()
+				wantFP, _ := modelFP(e.Model, st.Cur)
+				if got := conc.FPOf(cfg); got != wantFP || conc.SerialOf(tok) != st.Serial {
+					key := "view-after-install-mismatch"
+					if !wouldInstall {
+						key = "view-or-serial-changed-by-rejected-update"
+					}
+					w.Violation(i, key, fmt.Sprintf("after %s (context cancelled at the answer): view %+v serial %d, model %+v serial %d", cl, got, conc.SerialOf(tok), wantFP, st.Serial), trace)
+					return
+				}
+				if !wouldInstall && curPtr != nil && cfg != curPtr {
+					w.Violation(i, "view-pointer-changed-by-rejected-update", "config pointer changed although the update (context cancelled at the answer) was rejected", trace)
+					return
+				}
+			}
+			if exercised && res != conc.ResNotSubmitted {
+				w.Count("reports_cancelled_at_the_answer", 1)
+				if !wouldInstall {
+					w.Count("rejections_cancelled_at_the_answer", 1)
+				}
+				sig.WriteString("c")
+			}
+			if !e.FenceCallbacks(ctx) {
+				w.Inconclusive(i, "callback fence failed")
+				return
+			}
+			curPtr = e.D.View()
+			lastBySrc[src] = nil
+		}
 		if st.Verifying && r.Chance(5) {
 			// the callback goroutine is busy (parked in the handler of install A) while an update B is rejected and
 			// another one, C, is installed: when B's OnWatchedError finally runs, its old config is the one that was
@@ -269,7 +340,7 @@ func c04Sequential(w *fw.Worker, i int, r *fw.Rand) {
 			}
 			if rejectedB {
 				for _, ev := range e.CBLog()[mark:] {
-					if ev.Kind == "err" && ev.Old != cfgA {
+					if ev.Kind == "err" && !c04IsSentinel(ev) && ev.Old != cfgA {
 						w.Violation(i, "onwatchederror-old-not-current", fmt.Sprintf("OnWatchedError (delivered late, behind a parked callback) got old=%+v; the config current when the update was rejected was %+v", ev.OldFP, conc.FPOf(cfgA)), trace)
 						return
 					}
@@ -335,7 +406,7 @@ func c04Sequential(w *fw.Worker, i int, r *fw.Rand) {
 			evs := e.CBLog()[before:]
 			var errs []conc.CBEvent
 			for _, ev := range evs {
-				if ev.Kind == "err" {
+				if ev.Kind == "err" && !c04IsSentinel(ev) {
 					errs = append(errs, ev)
 				}
 			}
@@ -412,6 +483,12 @@ func c04Sequential(w *fw.Worker, i int, r *fw.Rand) {
 	if i%37 == 0 {
 		w.Sample(map[string]any{"mode": "sequential", "opts": fmt.Sprintf("%+v", o), "signature": sig.String(), "last_ops": trace})
 	}
+}
+
+// c04IsSentinel: the OnWatchedError call made for the harness's own monitor-fence error (the cancelled-at-the-answer
+// episodes fence the monitor with it); it is not the report of a rejected update.
+func c04IsSentinel(ev conc.CBEvent) bool {
+	return strings.Contains(ev.Err, conc.ErrSentinel.Error())
 }
 
 func hasIllTyped(m *conc.Model, slots [conc.MaxSrc]int, n int) bool {
@@ -732,4 +809,148 @@ func c04RejectThenShutdown(w *fw.Worker, i int, r *fw.Rand) {
 	}
 	w.Count("rejections_checked_exactly", int64(nRej))
 	w.Count("reject_then_shutdown_cases", 1)
+}
+
+// c04LateCtx is a context whose Done(), from its second call on, first runs fire (once). A blocking report asks its
+// context for Done() once when it submits the value and once more when it starts waiting for the answer: fire then runs
+// on the reporter's goroutine after the value was handed to the monitor and before the reporter looks at the answer.
+type c04LateCtx struct {
+	context.Context
+	calls atomic.Int32
+	once  sync.Once
+	fire  func()
+}
+
+func (c *c04LateCtx) Done() <-chan struct{} {
+	if c.calls.Add(1) >= 2 {
+		c.once.Do(c.fire)
+	}
+	return c.Context.Done()
+}
+
+// c04CancelAtAnswer performs a blocking report of l from source src whose context ends right when the monitor answers it.
+// mode 0: the reporter, about to wait for the answer, first lets the monitor finish the update (monitor fence) and only
+// then has its context cancelled: answer and cancellation are both there when it looks.
+// mode 1: the context is cancelled on the monitor goroutine at the schedule point just before the answer is sent: the
+// reporter is woken by the cancellation and the answer arrives while it wakes up.
+// exercised: the cancellation was placed as intended (after submission).
+func c04CancelAtAnswer(e *conc.Env, monHook *atomic.Pointer[func(string, []any)], src int, l *conc.Layer, mode int) (res int, err error, exercised bool) {
+	cctx, cancel := context.WithCancel(e.S.Ctx)
+	defer cancel()
+	var fired atomic.Bool
+	var rctx context.Context = cctx
+	if mode == 0 {
+		rctx = &c04LateCtx{Context: cctx, fire: func() {
+			if e.FenceMonitor(e.S.Ctx) {
+				fired.Store(true)
+			}
+			cancel()
+		}}
+	} else {
+		f := func(name string, args []any) {
+			if name != "mon.beforeReply" || len(args) < 3 {
+				return
+			}
+			if blocking, _ := args[2].(bool); blocking && fired.CompareAndSwap(false, true) {
+				cancel()
+			}
+		}
+		monHook.Store(&f)
+		defer monHook.Store(nil)
+	}
+	res, err = e.Report(rctx, 0, src, l, true)
+	return res, err, fired.Load()
+}
+
+// c04NoWatcher: stacks made of non-watching sources only (no monitor goroutine). Config verifies the initial stack unless
+// told to skip or delay; with DelayInitialVerification, EnableVerification is the one place where the stack is verified:
+// it must fail exactly when the installed config fails Verify (content, or an impure Verify that refuses).
+func c04NoWatcher(w *fw.Worker, i int, r *fw.Rand) {
+	for rep := 0; rep < 4; rep++ {
+		o := conc.Opts{Skip: r.Chance(35), Delay: r.Chance(65), Suppress: r.Chance(30), NSrc: r.Range(1, 3)}
+		e, err := conc.StartWith(context.Background(), r.U64(), o, c04InitLayers(r, 30), func(_ int, def dials.Source) dials.Source {
+			if ws, ok := def.(*conc.WSrc); ok {
+				return &ws.Src // Value only: not a dials.Watcher
+			}
+			return def
+		})
+		initFP := c04InitialFP(e)
+		valid := conc.ValidFP(initFP)
+		desc := map[string]any{"mode": "no-watcher", "opts": fmt.Sprintf("%+v", o), "initial_stack": fmt.Sprintf("%+v", initFP)}
+		w.Count("no_watcher_scenarios", 1)
+		if !o.Skip && !o.Delay && !valid {
+			w.Count("initial_invalid_configs", 1)
+			if err == nil {
+				w.Violation(i, "config-succeeded-on-invalid-initial-stack", fmt.Sprintf("Config (no watching source) returned nil error although the initial stack %+v fails Verify (opts %+v)", initFP, o), desc)
+				e.Stop()
+			} else if !strings.Contains(err.Error(), "harness: config invalid") {
+				w.Violation(i, "config-initial-error-not-wrapping-verify", "Config failed but not with the Verify error: "+err.Error(), desc)
+			}
+			continue
+		}
+		if err != nil {
+			w.Violation(i, "config-failed-on-valid-initial-stack", fmt.Sprintf("Config (no watching source) error %v on initial stack %+v opts %+v", err, initFP, o), desc)
+			continue
+		}
+		ctx := e.S.Ctx
+		view, tok := e.D.ViewVersion()
+		if got := conc.FPOf(view); got != initFP {
+			w.Violation(i, "initial-view-mismatch", fmt.Sprintf("initial view %+v, reference stack %+v", got, initFP), desc)
+		}
+		if vl := e.S.VerifyLog(); (o.Skip || o.Delay) && len(vl) != 0 {
+			w.Violation(i, "verify-called-despite-skip-or-delay", fmt.Sprintf("%d Verify calls during Config with opts %+v", len(vl), o), desc)
+		}
+		c04Validity(w, i, e, view, conc.SerialOf(tok), true, "view")
+		if o.Delay {
+			refuse := valid && r.Chance(35)
+			if refuse {
+				e.S.ForceVerifyErr(func(*conc.Cfg) error { return fmt.Errorf("harness: impure Verify refuses") })
+			}
+			for round := 0; round < 3; round++ {
+				cfg, etok, eerr := e.D.EnableVerification(ctx)
+				switch {
+				case !valid:
+					w.Count("no_watcher_enable_on_invalid_stack", 1)
+					if eerr == nil {
+						w.Violation(i, "enable-succeeded-on-invalid-config:no-watchers", fmt.Sprintf("EnableVerification (no watching source, call %d) returned (%+v, nil) although the installed config %+v fails Verify", round+1, conc.FPOf(cfg), initFP), desc)
+					} else if !strings.Contains(eerr.Error(), "harness: config invalid") {
+						w.Violation(i, "enable-error-not-the-verify-error:no-watchers", "EnableVerification failed with: "+eerr.Error(), desc)
+					}
+				case refuse:
+					w.Count("no_watcher_enable_with_refusing_verify", 1)
+					if eerr == nil {
+						w.Violation(i, "enable-succeeded-although-verify-failed:no-watchers", fmt.Sprintf("EnableVerification (no watching source) returned nil although the config's Verify method returned an error (config %+v)", initFP), desc)
+					} else if !strings.Contains(eerr.Error(), "impure Verify refuses") {
+						w.Violation(i, "enable-error-not-the-verify-error:no-watchers", "EnableVerification failed with: "+eerr.Error(), desc)
+					}
+					// Verify stops refusing: the next call switches verification on
+					e.S.ForceVerifyErr(nil)
+					refuse = false
+				default:
+					w.Count("no_watcher_enable_on_valid_stack", 1)
+					if eerr != nil {
+						w.Violation(i, "enable-failed-on-valid-config:no-watchers", fmt.Sprintf("EnableVerification error %v on valid installed config %+v", eerr, initFP), desc)
+					} else if cfg != view || conc.SerialOf(etok) != conc.SerialOf(tok) {
+						w.Violation(i, "enable-returned-other-config:no-watchers", fmt.Sprintf("EnableVerification returned (%p,%d), installed (%p,%d)", cfg, conc.SerialOf(etok), view, conc.SerialOf(tok)), desc)
+					}
+				}
+				if eerr == nil && cfg != nil {
+					// verification is active now: what the program sees has passed Verify
+					w.Count("configs_validity_checked", 2)
+					if now := e.D.View(); !conc.Valid(cfg) || !conc.Valid(now) {
+						w.Violation(i, "unverified-config-visible:EnableVerification", fmt.Sprintf("verification was enabled (no watching source) and the visible config %+v fails Verify", conc.FPOf(now)), desc)
+					}
+				}
+				if v2, t2 := e.D.ViewVersion(); v2 != view || conc.SerialOf(t2) != conc.SerialOf(tok) {
+					w.Violation(i, "view-changed-by-enable-verification:no-watchers", "view or serial changed across EnableVerification without any update", desc)
+				}
+			}
+		}
+		c04VerifyLogCount(w, e)
+		e.Stop()
+	}
+}
+
+func c04VerifyLogCount(w *fw.Worker, e *conc.Env) {
+	w.Count("verify_calls_observed", int64(len(e.S.VerifyLog())))
 }
